@@ -439,6 +439,9 @@ def run(ctx):
     mod = extract.load(MOD)
     real = mod.real()
     run_deductive(ctx)
+    # parsed paragraphs are built by Deb822._internal_parser: one mapping assignment per field, in line order (same contract as C02)
+    from props import C02 as _c02
+    _c02.verify_internal_parser(ctx, real)
     for q in ("Deb822Dict.__setitem__", "Deb822Dict.__getitem__", "Deb822Dict.__delitem__", "Deb822Dict.__contains__",
               "Deb822Dict.order_first", "Deb822Dict.order_last", "Deb822Dict.order_before", "Deb822Dict.order_after",
               "Deb822Dict.sort_fields", "Deb822Dict.copy", "Deb822Dict.__iter__", "Deb822Dict.__len__"):
